@@ -100,3 +100,26 @@ def volume_3d(cls, R0, amps, n_theta=96, n_phi=192):
         rel = harmonics.rel_interface_axisym(amps, T)
     integrand = (R0 * rel) ** 3 / 3
     return float(np.sum(w[:, None] * integrand) * (2 * np.pi / n_phi))
+
+
+def surface_3d(cls, R0, amps, n_theta=128, n_phi=256, step=1e-5):
+    """Area of the surface r(theta, phi) = R0 rel(theta, phi):
+    dA = r sqrt((r^2 + r_theta^2) sin^2(theta) + r_phi^2) dtheta dphi  (Gauss-Legendre in cos(theta), uniform in phi;
+    derivatives by central differences of the oracle's own series)."""
+    x, w = np.polynomial.legendre.leggauss(n_theta)
+    theta = np.arccos(x)
+    phi = np.linspace(0, 2 * np.pi, n_phi, endpoint=False)
+    T, P = np.meshgrid(theta, phi, indexing="ij")
+
+    def r(t, p):
+        if cls == "PerturbedDroplet3D":
+            return R0 * harmonics.rel_interface_3d(amps, t, p)
+        return R0 * harmonics.rel_interface_axisym(amps, t)
+
+    r0 = r(T, P)
+    r_t = (r(T + step, P) - r(T - step, P)) / (2 * step)
+    r_p = (r(T, P + step) - r(T, P - step)) / (2 * step)
+    s = np.sin(T)
+    dA = r0 * np.sqrt((r0 ** 2 + r_t ** 2) * s ** 2 + r_p ** 2)
+    # d(theta) = d(cos theta) / sin(theta)
+    return float(np.sum(w[:, None] * dA / s) * (2 * np.pi / n_phi))
